@@ -434,6 +434,14 @@ impl<P: Protocol> Sim<P> {
         self.trace_boot(i);
     }
 
+    /// the node (1-based, 0 = none) an address leads to: a node's own address or an alias (forwarded / translated address)
+    pub fn node_at(&self, a: &SocketAddr) -> u32 {
+        match self.idx_of(a) {
+            Some(j) => j as u32 + 1,
+            None => self.alias.get(a).map(|p| *p as u32).unwrap_or(0),
+        }
+    }
+
     pub fn idx_of(&self, a: &SocketAddr) -> Option<usize> {
         self.nodes.iter().position(|n| n.addr == *a)
     }
@@ -518,7 +526,7 @@ impl<P: Protocol> Sim<P> {
                 0
             };
             self.seq += 1;
-            self.queue.push(InFlight { due: self.now + delay, seq: self.seq, src, to, id: d.id, bytes: d.bytes.clone(), orig: (d.from, d.inc, d.tag), odst: tport(&d.to), oid: d.id });
+            self.queue.push(InFlight { due: self.now + delay, seq: self.seq, src, to, id: d.id, bytes: d.bytes.clone(), orig: (d.from, d.inc, d.tag), odst: self.node_at(&d.to), oid: d.id });
         }
     }
 
@@ -527,7 +535,7 @@ impl<P: Protocol> Sim<P> {
         self.seq += 1;
         // a verbatim copy of something a node really sent keeps its origin; anything else is fabricated
         let orig = if self.trace.is_some() {
-            self.wire.iter().rev().find(|d| d.bytes == bytes).map(|d| (d.from, d.inc, d.tag, tport(&d.to), d.id)).unwrap_or((0, 0, "forged", 0, 0))
+            self.wire.iter().rev().find(|d| d.bytes == bytes).map(|d| (d.from, d.inc, d.tag, self.node_at(&d.to), d.id)).unwrap_or((0, 0, "forged", 0, 0))
         } else {
             (0, 0, "forged", 0, 0)
         };
@@ -537,13 +545,13 @@ impl<P: Protocol> Sim<P> {
     /// a verbatim copy of a datagram a node really sent (duplicating network / replay), delivered at `due` with source `src`
     pub fn inject_copy(&mut self, to: usize, src: SocketAddr, d: &Dgram, due: Time) {
         self.seq += 1;
-        self.queue.push(InFlight { due, seq: self.seq, src, to: to as u16 + 1, id: 0, bytes: d.bytes.clone(), orig: (d.from, d.inc, d.tag), odst: tport(&d.to), oid: d.id });
+        self.queue.push(InFlight { due, seq: self.seq, src, to: to as u16 + 1, id: 0, bytes: d.bytes.clone(), orig: (d.from, d.inc, d.tag), odst: self.node_at(&d.to), oid: d.id });
     }
 
     /// immediate presentation of a datagram to node `to` (bypasses the queue); returns what the node did
     pub fn present(&mut self, to: usize, src: SocketAddr, bytes: &[u8]) -> CallResult {
         let orig = if self.trace.is_some() {
-            self.wire.iter().rev().find(|d| d.bytes == bytes).map(|d| (d.from, d.inc, d.tag, tport(&d.to), d.id)).unwrap_or((0, 0, "forged", 0, 0))
+            self.wire.iter().rev().find(|d| d.bytes == bytes).map(|d| (d.from, d.inc, d.tag, self.node_at(&d.to), d.id)).unwrap_or((0, 0, "forged", 0, 0))
         } else {
             (0, 0, "forged", 0, 0)
         };
